@@ -19,7 +19,8 @@ tvars == <<l, own, last>>
 NoOwn == [attributed |-> FALSE, elevated |-> FALSE, dest |-> "none"]
 Init == l = 1 /\ own = [c \in {} |-> NoOwn] /\ last = [e |-> "init"]
 Next == /\ l <= Len(Rec) /\ l' = l + 1 /\ last' = Rec[l]
-        /\ own' = IF Rec[l].e = "conn"
+        /\ own' = IF Rec[l].e = "reset" THEN [c \in {} |-> NoOwn]        \* a new history starts: forget closed connections
+                  ELSE IF Rec[l].e = "conn"
                   THEN [c \in DOMAIN own \cup {Rec[l].conn} |->
                           IF c = Rec[l].conn THEN [attributed |-> Rec[l].attributed, elevated |-> Rec[l].elevated, dest |-> Rec[l].dest]
                           ELSE own[c]]
